@@ -128,7 +128,8 @@ def names(draw, k):
 
 
 MUT_FORMULA = ["trail-atom", "trail-rparen", "lead-lparen", "trail-comma", "lead-comma", "double-comma",
-               "illegal-char", "trail-not", "empty-parens", "juxtapose", "trail-semicolon"]
+               "illegal-char", "trail-not", "empty-parens", "juxtapose", "trail-semicolon",
+               "newline-trail-rparen", "newline-trail-atom"]
 MUT_BASE = ["after-brace-garbage", "after-brace-cond", "missing-cond-comma", "missing-bar",
             "missing-open-brace", "sig-missing-comma", "unbalanced-in-cond", "double-comma-in-cond",
             "missing-close-brace", "illegal-char"]
@@ -159,6 +160,10 @@ def mutate_formula(text, kind, rnd):
         return text + " " + text
     if kind == "trail-semicolon":
         return text + ";"
+    if kind == "newline-trail-rparen":
+        return text + rnd.choice(["\n", "\r\n", " \n "]) + ")"
+    if kind == "newline-trail-atom":
+        return text + rnd.choice(["\n", "\r\n", "\n\n"]) + "b" + rnd.choice(["", " c", ")"])
     raise AssertionError(kind)
 
 
